@@ -244,9 +244,12 @@ void otsu_impl(SrcView const& src_view, DstView const& dst_view, threshold_direc
             for (std::ptrdiff_t x = 0; x < src_view.width(); x++)
             {
                 if (src_it[x] < min) min = src_it[x];
-                if (src_it[x] > min) min = src_it[x];
+                if (src_it[x] > max) max = src_it[x];
             }
         }
+
+        //a constant image has a single level, do not divide by zero
+        auto const range = max > min ? max - min : 1;
 
         //making histogram
         for (std::ptrdiff_t y = 0; y < src_view.height(); y++)
@@ -255,7 +258,7 @@ void otsu_impl(SrcView const& src_view, DstView const& dst_view, threshold_direc
 
             for (std::ptrdiff_t x = 0; x < src_view.width(); x++)
             {
-                histogram[((src_it[x] - min) * 255) / (max - min)]++;
+                histogram[((src_it[x] - min) * 255) / range]++;
             }
         }
     }
